@@ -9,7 +9,7 @@ import z3
 
 from . import smt
 from .smt import Val, VNone, VAbsent, VBool, VInt, VStr, VRef, F, OP, IntS, BoolS
-from .values import (Z, Bv, Iv, Const, ObjV, FuncV, LambdaV, BoundV, ClassV, BuiltinV, ModuleV, SuperV, TupleV, KwV,
+from .values import (Z, Bv, Iv, Const, ObjV, FuncV, LambdaV, BoundV, ClassV, BuiltinV, ModuleV, SuperV, TupleV, KwV, PyDictV,
                      LockV, LocksTableV, ExcV, ResolverV, Raise, Unsupported, State, to_val, as_int)
 
 # ----------------------------------------------------------------------------------------------
@@ -554,6 +554,12 @@ class Intrinsics:
                 return [(st, Bv(item.v in container.v))]
             t = to_val(item)
             return [(st, Bv(smt.or_([t == to_val(Const(x)) for x in container.v])))]
+        if isinstance(container, TupleV) and isinstance(item, Z) and "type_of" in item.meta:
+            tv = to_val(item.meta["type_of"])
+            names = []
+            for x in container.items:
+                names.extend(self._type_names(x))
+            return [(st, Bv(smt.or_([smt.tyof(tv) == z3.IntVal(smt.tid_of(n)) for n in names])))]
         if isinstance(container, TupleV):
             t = to_val(item) if not isinstance(item, ClassV) else None
             if t is None:
@@ -704,6 +710,9 @@ class Intrinsics:
 
     # ------------------------------------------------------------------ attributes of values
     def value_attr(self, eng, st, obj, name):
+        if isinstance(obj, Z) and name == "ndim":
+            # an attribute of the INSTANCE (numpy arrays): a function of the value, not of its type
+            return [(st, Iv(F("attr_ndim", Val, IntS)(obj.term)))]
         if isinstance(obj, LockV):
             if name in ("__enter__", "__exit__", "acquire", "release"):
                 return [(st, BuiltinV("lock." + name, recv=obj))]
@@ -714,6 +723,8 @@ class Intrinsics:
                     raise Unsupported(f"call of {name} on a node of unknown class without a virtual contract")
                 return [(st, BuiltinV("virtual:" + name, recv=obj))]
             return [(st, BuiltinV("m:" + name, recv=obj))]
+        if isinstance(obj, PyDictV) and name == "items":
+            return [(st, BuiltinV("pydict.items", recv=obj))]
         if isinstance(obj, ResolverV):
             if name == "get_type":
                 return [(st, BuiltinV("resolver.get_type", recv=obj))]
@@ -887,7 +898,7 @@ class Intrinsics:
             if ci is not None and any(k.name == "SyncedCollection" for k in ci.mro):
                 # Inv.node: the only object references inside values are synced nodes, and only they are
                 # instances of synced classes
-                alts.append(z3.And(smt.is_VRef(tv), smt.inst(smt.ClsOf(Val.addr(tv)), z3.IntVal(smt.tid_of(n)))))
+                alts.append(z3.And(smt.is_VRef(tv), smt.isinstance_(tv, n)))
             else:
                 alts.append(smt.isinstance_(tv, n))
         return [(st, Bv(smt.or_(alts)))]
@@ -990,6 +1001,28 @@ class Intrinsics:
             raise Unsupported("range with several arguments")
         n = as_int(args[0])
         return [(st, Z(F("range_obj", IntS, Val)(n), None, {"range": n, "plain": True}))]
+
+    def b_pydict_items(self, eng, st, fn, args, kwargs):
+        return [(st, TupleV([TupleV([k, v]) for k, v in fn.recv.pairs]))]
+
+    def b_tuple(self, eng, st, fn, args, kwargs):
+        v = args[0]
+        if isinstance(v, TupleV):
+            return [(st, v)]
+        if isinstance(v, Const) and isinstance(v.v, tuple):
+            return [(st, TupleV([Const(x) for x in v.v]))]
+        raise Unsupported("tuple() of " + repr(v))
+
+    def b_issubclass(self, eng, st, fn, args, kwargs):
+        t, ts = args
+        names = self._type_names(ts) if not (isinstance(ts, TupleV) and not ts.items) else []
+        if isinstance(t, Z) and "type_of" in t.meta:
+            tv = to_val(t.meta["type_of"])
+            return [(st, Bv(smt.or_([smt.isinstance_(tv, n) for n in names])))]
+        if isinstance(t, ClassV):
+            mro = {k.name for k in t.ci.mro}
+            return [(st, Bv(any(n in mro for n in names)))]
+        raise Unsupported("issubclass of " + repr(t))
 
     def b_min(self, eng, st, fn, args, kwargs):
         a, b = as_int(args[0]), as_int(args[1])
